@@ -9,6 +9,16 @@ CLAIMED = {
    note="Hand-written model GapList.v (trusted until compared): correspondence run on every invocation; 32-bit overflow not modelled; derivative correctness under recycling is covered by C01/C03.",
    technique="Coq proof of allocator invariant (induction over histories) + differential correspondence of extracted model vs Stack",
    design="DESIGN.md §4 C08"),
+ "C02": dict(
+   text="Machine-checked proofs (Coq, axiom-free, any commutative ring): <rev t v,u> = <v,fwd t u> for every well-indexed tape; entrywise equality of adjoint-pass rows and tangent-pass columns; and for the blocked drivers of jacobian.cpp (serial forward/reverse, automatic chooser, OpenMP in any block order, every block width M>=1, every m,n, repeated index lists) that the list of writes is a permutation of {cell (i,j) at i*dep_off+j*indep_off := J(i,j)}, each exactly once, hence the final memory for every injective layout (column-major pointer default, row-major, transposed and strided Matrix targets). Tie: the extracted model run on OCaml doubles is compared exactly with the real Stack on tapes written through the public add/append_derivative_dependence API, for several block widths/packet ISAs.",
+   note="Hand model Tape.v/Jacobian.v; rounding not modelled (test data dyadic, results exact); the multi-lane zero shortcut with non-finite multipliers is outside the ring model; negative Matrix strides as target outside the claim.",
+   technique="Coq proof (adjoint identity by induction over the tape; permutation-of-canonical-writes for each driver) + differential correspondence of extracted model vs Stack",
+   design="DESIGN.md §4 C02"),
+ "C13": dict(
+   text="Machine-checked proof that the OpenMP Jacobian routines, modelled as an arbitrary execution order of ceil(k/M) blocks with private buffers, perform a permutation of the serial routine's writes (each cell produced by exactly one block, no re-association), so the resulting matrix is identical for every schedule and thread count; blocks write disjoint cells. Tie: harness built with -fopenmp, set_max_jacobian_threads(1..16), compared exactly with the model and the unit-vector passes; a guarded hook confirms several threads processed blocks.",
+   note="Threads are modelled at block granularity (inside a block only private memory and disjoint output cells are touched - proved); the OpenMP runtime executing each iteration exactly once is trusted; hardware interleavings are exercised, not proved.",
+   technique="Coq proof of schedule independence (permutation invariance of disjoint writes) + OpenMP differential run",
+   design="DESIGN.md §4 C13"),
 }
 NOT_YET = "check not built yet in this round (design in DESIGN.md §4); not claimed until its model, theorems and correspondence run exist"
 m = {
